@@ -488,7 +488,7 @@ Proof.
     destruct (merge_indexes [] idxs) as [recs|].
     + rewrite Hm. cbn [negb].
       destruct (append_record recs (zN foot) 0 footerType) as [recs'|]; [|reflexivity].
-      rewrite (seek_literal_zr data recs' z (mkZr [] 0 None 0 false) log').
+      rewrite (seek_literal_zr data recs' z (mkZr [] 0 None 0 false false) log').
       destruct (seek _ 0 0) as [r s1]. reflexivity.
     + destruct Hm as (r & Hm). rewrite Hm. reflexivity.
 Qed.
